@@ -16,4 +16,14 @@ PROPS = {
         "assumptions": ["Go map semantics of c.data (insert/replace/lookup) are those of an association list with unique keys"],
         "explanation": "theorems over all histories on the Coq model of context.go + differential runs of the model against the real Context on exhaustive short and random long histories",
     },
+    "C19": {
+        "level": "proof",
+        "cone": ["model/Bytes.v", "model/Iter.v", "proofs/IterProofs.v", "props/C19.v"],
+        "trusted_base": COMMON_TB + [
+            "model/Iter.v transcribes helpers/iterators/{range,between,until,group_by}.go and helpers/meta/len.go; Go int arithmetic modelled as Z wrapped to 64 bits",
+            "reflect.Value.Len / Slice semantics assumed (len_direct, firstn/skipn)",
+        ],
+        "assumptions": ["Go int is 64-bit two's complement"],
+        "explanation": "closed-form theorems for the ranger iterators (with the minint side conditions that are the known finding F13), partition theorem for groupBy, len theorem; differential runs against helpers/iterators, plush.GroupByHelper and helpers/meta",
+    },
 }
